@@ -433,6 +433,21 @@ PROPS['C27'] = dict(
     explanation='A crash leaves the disk in the state after some completed system call, so an invariant asserted inside every system-call model is checked at every crash point of the operation.',
 )
 
+PROPS['C11'] = dict(
+    units=['k_copy'], level='model_checking', design_ref='13/C11',
+    technique='CBMC assertions on MessageBase::copy_legal and move_legal with the inline helpers they run through (add_field x2, get_field, clear_positions, FieldTraits::has x2 / get x2 / getPos / set / '
+              'get_presence) extracted from the clang AST, over parts of bounded size (loops unwound); the refutation replayed through the real Message::factory / clone / encode',
+    text='BOUNDED to message parts of at most 3 field traits without repeating groups, empty target, force = false (what clone() uses). Copy: every field of the source that is present and legal for the '
+         'target arrives exactly once as an equal copy in a new object, is positioned and marked present; absent or illegal fields are not copied; the count returned is the number copied; the source is '
+         'unchanged. Move: the very same field objects arrive once, the source no longer refers to them and its positions are cleared, nothing is copied. '
+         'KNOWN FINDING (refuted, replayed on the real code): the copy does not keep the relative order of the fields -- add_field places every field at its SCHEMA position -- so clone() of a decoded '
+         'message whose body fields arrived in another order re-encodes to different bytes (same fields, same values, same checksum; 55,11,54,21,40.. becomes 11,21,55,54,..). Messages built through '
+         'the API are in schema order already and clone byte-identically. NOT decided: repeating groups (nested copy / move), force = true, Message::clone\'s header / trailer composition, the bound.',
+    note='bounded stand-in (3 traits per part, no groups), never counted as proved; field / position maps are small insertion logs; BaseField::copy() is an ASSUMED model',
+    trusted_base=COMMON_TRUST,
+    explanation='Byte identity of a clone needs the same fields, the same values and the same order; the first two are per-field obligations, the third is the order obligation that fails.',
+)
+
 # ---------------------------------------------------------------- native replayers
 import os
 import re
@@ -697,7 +712,19 @@ def _replay_k_read(oid, inputs, trace, wd):
     return dict(steps=steps, reproduced=rep)
 
 
+
+def _replay_k_copy(oid, inputs, trace, wd):
+    R = _rp.astdump.REPO
+    exe = _rp.build_native(os.path.join(_rp.VERIF, 'replay', 'k_copy.cpp'), os.path.join(wd, 'replay_k_copy'),
+                           extra=[R + '/runtime/message.cpp', '-I/repo/utests', '-L/repo/utests/.libs', '-lutest', '-L/repo/runtime/.libs', '-lfix8',
+                                  '-Wl,-rpath,/repo/utests/.libs', '-Wl,-rpath,/repo/runtime/.libs'], timeout=900)
+    rc, o = _rp.run_native(exe, [])
+    return dict(steps=[dict(kind='native: decode a NewOrderSingle with body fields in non-schema order, clone it, encode both (and the same for a message built through the API)', rc=rc, output=o[-1500:])],
+                reproduced=rc != 0)
+
+
 replayers['k_tok'] = _replay_k_tok
+replayers['k_copy'] = _replay_k_copy
 replayers['k_read'] = _replay_k_read
 replayers['k_fper'] = _replay_k_fper
 replayers['k_dec'] = _replay_k_dec
